@@ -23,9 +23,32 @@ class CatalogGen:
                 env[0][k] = role
                 text.append("typedef int N%d;" % k if role == "t" else "int N%d;" % k)
                 items.append("D%s %d" % (role, k))
-        text.append("void f(void)\n{\n int y = 0, x = 1;")
-        items.append("{")
+        # the function's own parameters are declared in the block of its body; the named parameters of a prototype NESTED in a
+        # parameter ('void (*cb)(int N2)') are in a scope that ends with that declarator (6.2.1p4): for the body it is a block that
+        # holds these declarations and nothing else (seeded change C09-c let them leak into the body)
+        params, nested = [], []
         env.append({})
+        pool = list(range(self.names))
+        self.r.shuffle(pool)
+        for k in pool[:self.r.choice([0, 0, 1, 2])]:
+            params.append(k)
+        for j in range(self.r.choice([0, 0, 1, 2])):
+            nested.append([k for k in self.r.sample(range(self.names), self.r.choice([1, 1, 2]))])
+        plist, pitems = [], []
+        slots = [("p", k) for k in params] + [("n", ks) for ks in nested]
+        self.r.shuffle(slots)
+        for j, (kind, v) in enumerate(slots):
+            if kind == "p":
+                plist.append("int N%d" % v)
+                pitems.append("Dn %d" % v)
+                env[-1][v] = "n"
+            else:
+                form = self.r.choice(["void (*cb%d)(%s)", "int fp%d(%s)", "char *(*cb%d)(%s)"])
+                plist.append(form % (j, ", ".join("int N%d" % k for k in v)))
+                pitems.append("{ " + " ".join("Dn %d" % k for k in v) + " }")
+        text.append("void f(%s)\n{\n int y = 0, x = 1;" % (", ".join(plist) or "void"))
+        items.append("{")
+        items += pitems
         budget = [self.size]
         self.block(env, text, items, exp, 1, budget)
         env.pop()
